@@ -158,10 +158,10 @@ HIST_RULE = ("D1 history driver: seeded histories (2-5 clients, code / hybrid / 
 
 PROPS = {
     "C01": dict(
-        modules=["Fosite.Props.C01"],
+        modules=["Fosite.Props.C01", "Fosite.Props.C01b"],
         drivers=[dict(name="hist", kind="hist")],
         rule=HIST_RULE,
-        partial=["family-wide revocation after replay (descendants dead) is checked by the monitor on implementation traces and by the correspondence; its Lean theorem (index invariant) is not yet proved"],
+        partial=["replay_kills_family (Props/C01b) is over fault-free histories; under storage faults the replay branch ignores revocation errors (C18 covers fail-closed outcomes), and concurrent redemptions of one code are C19's subject"],
     ),
     "C02": dict(
         modules=["Fosite.Props.C02"],
@@ -176,10 +176,10 @@ PROPS = {
         partial=["full statement (binding survives failed attempts) — see pkce_binding_counterexample / known findings"],
     ),
     "C04": dict(
-        modules=["Fosite.Props.C04"],
+        modules=["Fosite.Props.C04", "Fosite.Props.C04b"],
         drivers=[dict(name="hist", kind="hist")],
         rule=HIST_RULE,
-        partial=["'the access token issued alongside is inactive after rotation' and 'reuse kills the whole family' are checked by the monitor and the correspondence; their Lean theorems need the access-token index invariant (not yet proved)"],
+        partial=["family clauses (Props/C04b: rotation leaves only the new pair, reuse kills the grant and only that grant, for good) are over fault-free histories; a storage fault inside handleRefreshTokenReuse answers a storage error instead (C18)"],
     ),
     "C05": dict(
         modules=["Fosite.Props.C05"],
@@ -199,10 +199,10 @@ PROPS = {
                  "freshness of crypto/rand is the rand_fresh assumption; mint ops are supporting evidence only"],
     ),
     "C08": dict(
-        modules=["Fosite.Props.C08"],
+        modules=["Fosite.Props.C08", "Fosite.Props.C08b"],
         drivers=[dict(name="hist", kind="hist")],
         rule=HIST_RULE,
-        partial=["effectiveness for a presented *access* token needs the access-token index invariant; see known findings for the hybrid-flow counterexample"],
+        partial=["effectiveness / completeness theorems (Props/C08b) are over fault-free histories; a store error during revocation is answered temporarily_unavailable (modelled, C18)"],
     ),
     "C09": dict(
         modules=["Fosite.Props.C09"],
@@ -312,13 +312,13 @@ PROPS = {
                  "failures after commit (OIDC / PKCE session clean-up) refuse the request although the grant is applied; password, hybrid-authorize and PAR-use flows run without a transaction: fail-closed only (Post false)"],
     ),
     "C19": dict(
-        modules=["Fosite.Props.C19", "Fosite.Props.C19b"],
+        modules=["Fosite.Props.C19", "Fosite.Props.C19b", "Fosite.Props.C19c"],
         facts=True,
         drivers=[dict(name="lockfacts", kind="lockfacts"), dict(name="stress", kind="stress", seconds={"quick": 4, "thorough": 60}), dict(name="hist", kind="hist")],
         rule="D7 facts: every method of storage.MemoryStore and hmac.HMACStrategy, and every getter of *Config, as extracted by go/ast on this run (lock / unlock / map access / intra-receiver call events in evaluation order; receiver fields assigned by getters); a method is non-trivial when it takes at least one lock; evaluations = methods extracted. Support: free-running go test -race stress (16 goroutines, overlapping codes / refresh tokens / request URIs / device codes, default-constructed and fully populated Config, deadlock watchdog), evaluations = operations completed. Interleavings: history driver with op `par`: two or three operations on overlapping credentials (one code twice, one refresh token twice / against its revocation / against introspection / against a replay of an old generation, one device code twice, one request_uri twice, unrelated grants) run as goroutines against one provider and one store; every storage call parks at a gate and the scheduler releases one call per schedule entry (alternating, sequential, random words), so the interleaving is the prescribed one and the run is deterministic; the Lean driver runs Model.runSched on the same operations and schedule; compared: per-thread outcomes, the thread-tagged storage-call log, the store dump",
         assumptions=["the Go memory model and runtime are not modelled: the theorems are about the lock discipline of the source (which mutex is held at which map access, acquisition order, getter purity) and, through lockset_sound / no_lock_deadlock, about an RWMutex transition system of any number of threads running the extracted programs",
                      "sharing through the values stored in the maps (Session pointers, stored requesters) is outside lock granularity; only the race-detector stress sees it (support, not proof)"],
-        partial=["interleaving theorems (Props/C19b) are over the plain reference store: no faults, no transactional store; one storage call of the model is one atomic step (RotateRefreshToken is two locked sections in the Go store: revoke refresh, then revoke access)",
+        partial=["interleaving theorems: Props/C19b with one storage call = one atomic step; Props/C19c re-proves all four groups with RotateRefreshToken split into its two locked sections (other threads may run between them) and under arbitrary per-thread fault plans; the transactional wrapper of the harness (whole-store snapshot / rollback) is not interleaved: it is not part of fosite's reference store",
                  "token generation never repeating rests on rand_fresh (C06 mint theorems)"],
     ),
     "C20": dict(
